@@ -31,42 +31,29 @@ static void write_srec_line(
   int checksum = 0;
   int n;
 
-  if (type == -1)
-  {
-    if (address <= 0xffff)
-    {
-      type = 1;
-    }
-      else
-    if (address <= 0xffffff)
-    {
-      type = 2;
-    }
-      else
-    {
-      type = 3;
-    }
-  }
+  // type is the narrowest record the CPU asks for (-1: no preference).  A
+  // record is never narrower than its address needs: S1 holds 16 bits,
+  // S2 holds 24.
+  if (type == -1) { type = 1; }
 
-  if (type <= 1)
+  if (type <= 1 && address <= 0xffff)
   {
-    address &= 0xffff;
     fprintf(out, "S%c%02X%04X", '0' + type, len + 3, address);
 
     checksum = (len + 3) + (address >> 8) + (address & 0xff);
   }
     else
-  if (type == 2)
+  if (type <= 2 && address <= 0xffffff)
   {
-    address &= 0xffffff;
+    type = 2;
     fprintf(out, "S%c%02X%06X", '0' + type, len + 4, address);
 
     checksum = (len + 4) + (address >> 16) + ((address >> 8) & 0xff) +
       (address & 0xff);
   }
     else
-  if (type == 3)
   {
+    type = 3;
     fprintf(out, "S%c%02X%08X", '0' + type, len + 5, address);
 
     checksum = (len + 5) + (address >> 24) + ((address >> 16) & 0xff) +
@@ -181,12 +168,28 @@ int write_srec(Memory *memory, FILE *out, int srec_size)
 
   if (memory->entry_point != 0xffffffff)
   {
-    int checksum = 3 + ((memory->entry_point >> 8) & 0xff) +
-                        (memory->entry_point & 0xff);
+    // S9, S8 and S7 carry a 16, 24 and 32 bit start address.
+    const uint32_t entry = memory->entry_point;
 
-    checksum = (checksum & 0xff) ^ 0xff;
+    int checksum = (entry >> 24) + ((entry >> 16) & 0xff) +
+                   ((entry >> 8) & 0xff) + (entry & 0xff);
 
-    fprintf(out, "S903%04x%02x\n", memory->entry_point, checksum);
+    if (entry <= 0xffff)
+    {
+      checksum = ((checksum + 3) & 0xff) ^ 0xff;
+      fprintf(out, "S903%04x%02x\n", entry, checksum);
+    }
+      else
+    if (entry <= 0xffffff)
+    {
+      checksum = ((checksum + 4) & 0xff) ^ 0xff;
+      fprintf(out, "S804%06x%02x\n", entry, checksum);
+    }
+      else
+    {
+      checksum = ((checksum + 5) & 0xff) ^ 0xff;
+      fprintf(out, "S705%08x%02x\n", entry, checksum);
+    }
   }
 
   return 0;
